@@ -410,7 +410,12 @@ class SubjectAnalysis:
         # the whole container copied: `Container snapshot(m_observers)` / `auto snapshot = m_observers`
         def is_obs(a):
             return (isinstance(a, Sym) and a.name.split('.')[-1] == OBS) or (isinstance(a, Ref) and a.loc[0] == 'f' and a.loc[1][-1] == OBS)
-        copied = [e for e in pre if e.kind in ('construct', 'decl') and ((e.kind == 'construct' and len(e.args) == 1 and is_obs(e.args[0])) or (e.kind == 'decl' and is_obs(e.val)))]
+        def by_value(e):
+            # the declared variable is an object of its own (not a reference / pointer to m_observers, as the range variable of a range-for is)
+            if e.node is None or e.node.k != 'decl': return False
+            return any(v['name'] == e.obj and not v.get('isref') and not v.get('isptr') for v in e.node.vars)
+        copied = [e for e in pre if (e.kind == 'construct' and len(e.args) == 1 and is_obs(e.args[0]) and re.match(r'std::(__cxx11::)?(vector|list|forward_list|deque)\b', (e.name or '')))
+                  or (e.kind == 'decl' and is_obs(e.val) and by_value(e))]
         if copied and not fills and not rangector:
             revs = sum(1 for e in pre if e.kind == 'call' and (e.name == 'std::reverse' or (e.name.split('::')[-1] == 'reverse' and e.obj is not None and e.obj not in self.fields)))
             direction = None
